@@ -14,4 +14,4 @@ def supported(L):
 
 
 def streams(ctx):
-    return class_streams(ctx, CLASS, supported, (1, 4 if ctx.thorough else 3), OUTSIDE, 6, 3301)
+    return class_streams(ctx, CLASS, supported, (1, 4 if ctx.thorough else 3), OUTSIDE, 6, 3301, rank_family=True)
